@@ -8,6 +8,7 @@ import (
 	"sort"
 	"strconv"
 	"strings"
+	"syscall"
 	"time"
 
 	"github.com/diiyw/nodis"
@@ -244,6 +245,33 @@ func callAPI(n *nodis.Nodis, method string, toks []string) (out string, raw []re
 type faultStorage struct {
 	storage.Storage
 	fail int
+	// crash testing (C13): the process kills itself (SIGKILL: nothing is flushed or closed) right
+	// before (killMode "before") or right after ("after") its killAt-th mutating storage call
+	calls    int
+	killAt   int
+	killMode string
+}
+
+func (f *faultStorage) mutate(do func() error) error {
+	f.calls++
+	if f.killAt > 0 && f.calls == f.killAt && f.killMode == "before" {
+		syscall.Kill(os.Getpid(), syscall.SIGKILL)
+		select {}
+	}
+	err := do()
+	if f.killAt > 0 && f.calls == f.killAt && f.killMode == "after" {
+		syscall.Kill(os.Getpid(), syscall.SIGKILL)
+		select {}
+	}
+	return err
+}
+
+func (f *faultStorage) Delete(key *ds.Key) error {
+	return f.mutate(func() error { return f.Storage.Delete(key) })
+}
+
+func (f *faultStorage) Clear() error {
+	return f.mutate(func() error { return f.Storage.Clear() })
 }
 
 var errInjected = fmt.Errorf("injected storage failure")
@@ -253,7 +281,7 @@ func (f *faultStorage) Set(key *ds.Key, value ds.Value) error {
 		f.fail--
 		return errInjected
 	}
-	return f.Storage.Set(key, value)
+	return f.mutate(func() error { return f.Storage.Set(key, value) })
 }
 
 func (st *state) cur() *instance { return st.inst[st.current] }
@@ -332,6 +360,14 @@ func (st *state) apiOp(toks []string) (out string, annot string) {
 	case "reopen": // Close must have been called
 		in := st.cur()
 		return st.openInstance(st.current, in.backend, in.dir, false), ""
+	case "attach": // attach <id> pebble <dir>: open an existing directory (after a crash)
+		return st.openInstance(toks[1], toks[2], toks[3], false), ""
+	case "killat": // killat <n> before|after: die at the n-th mutating storage call
+		st.cur().fault.killAt, _ = strconv.Atoi(toks[1])
+		st.cur().fault.killMode = toks[2]
+		return "ok", ""
+	case "storecalls":
+		return fmt.Sprintf("calls=%d", st.cur().fault.calls), ""
 	case "failset": // the next n backend writes fail
 		k, _ := strconv.Atoi(toks[1])
 		st.cur().fault.fail = k
